@@ -30,6 +30,14 @@ class SymSeries:
     def ravel(self):
         return self.values.ravel()
 
+    def __getitem__(self, key):
+        from .prelude_groupby import GroupIndex, GroupSeries
+
+        if isinstance(key, GroupIndex):
+            snap = self.values.snapshot()
+            return GroupSeries(key.gs, key.g, lambda p: snap(p))
+        raise Unsupported("Series indexing with %r" % type(key))
+
 
 class SymDataFrame:
     """pd.DataFrame(dict_of_columns[, columns=order]): named 1-D columns of one common length."""
@@ -72,6 +80,10 @@ class SymDataFrame:
             return SymSeries(self.cols[key], name=key)
         raise KeyError(key)
 
+    def update_columns(self, more):
+        for k, v in more.items():
+            self.cols[k] = as_array(v)
+
     def __len__(self):
         from .core import concrete_value
 
@@ -89,8 +101,30 @@ class SymDataFrame:
         return SymGroupBy(self, key)
 
 
+class SymRowFrame:
+    """pd.DataFrame(2-D array with ONE row, index=[0], columns=names)."""
+
+    def __init__(self, row, names):
+        self.row, self.names = row, list(names)
+
+    def value(self, k):
+        return self.row.at(0, k)
+
+
+def _dataframe(data=None, columns=None, index=None):
+    if isinstance(data, SymArr):
+        from .core import concrete_value
+
+        n0 = concrete_value(data.shape[0]) if is_sym(data.shape[0]) else data.shape[0]
+        if data.ndim == 2 and n0 == 1 and columns is not None:
+            _use("DataFrame (one row from a 2-D array)")
+            return SymRowFrame(data.copy(), columns)
+        raise Unsupported("DataFrame from an array")
+    return SymDataFrame(data, columns=columns, index=index)
+
+
 class _PD:
-    DataFrame = SymDataFrame
+    DataFrame = staticmethod(_dataframe)
     Series = SymSeries
 
     def __getattr__(self, name):
